@@ -11,17 +11,19 @@ from harness import gen, model, ref
 from harness.model import T
 from harness.props.c01 import compare_load, load_outcome
 from harness.props.c05 import plain_doc
+from harness.props import v1streams
 
 
-def gen_c09_cls(rng, depth, nested=False):
+def gen_c09_cls(rng, depth, nested=False, fresh=None, p_noinit=0.35):
     """class with required / default / default_factory / init=False fields, nested dataclasses and containers of them"""
+    fresh = fresh or model.fresh
     used = set()
     n = rng.randint(1, 4 if nested else 5)
     req, opt = [], []
     for _ in range(n):
         r = rng.random()
         if depth > 0 and r < 0.3:
-            inner = gen_c09_cls(rng, depth - 1, nested=True)
+            inner = gen_c09_cls(rng, depth - 1, nested=True, fresh=fresh, p_noinit=p_noinit)
             ft = rng.choice([inner, T('list', inner), T('dict', T('str'), inner), T('optional', inner), T('tuple', inner, T('int'))])
         else:
             ft = T(rng.choice(['int', 'str', 'bool', 'float', 'list:int', 'dict:str:int', 'optional:int', 'any']))
@@ -45,7 +47,7 @@ def gen_c09_cls(rng, depth, nested=False):
         fields.append(f)
         ftys.append([name, ft])
     # init=False fields (always with a default here; the no-default flavour is exercised through `post`)
-    if rng.random() < 0.35:
+    if rng.random() < p_noinit:
         name = gen.field_name(rng, used)
         if rng.random() < 0.5:
             fields.append({'name': name, 'dflt': ['lit', rng.choice([0, 'computed', None])], 'factory': False, 'init': False})
@@ -53,7 +55,7 @@ def gen_c09_cls(rng, depth, nested=False):
         else:
             fields.append({'name': name, 'init': False, 'post': rng.choice([7, 'p'])})
             ftys.append([name, T('any')])
-    info = {'name': model.fresh('C'), 'fields': fields, 'wizard': rng.random() < 0.5, 'meta': None}
+    info = {'name': fresh('C'), 'fields': fields, 'wizard': rng.random() < 0.5, 'meta': None}
     return {'k': 'cls', 'info': info, 'ftys': ftys}
 
 
@@ -163,6 +165,10 @@ def check_defaults(ctx, case, y, y2, ty, doc, built, src):
 
 
 def run(ctx: C.Ctx):
+    v1streams.run_streams(ctx, run_default, run_v1)
+
+
+def run_default(ctx: C.Ctx):
     from dataclass_wizard import fromdict
     from dataclass_wizard.errors import MissingFields
     rng = ctx.rng
@@ -247,3 +253,130 @@ def run(ctx: C.Ctx):
         outs = ctx.driver.run(reqs)
         for (case, out, built), o_ in zip(pend, outs):
             compare_load(ctx, 'absent', case, out, o_, built)
+
+
+# --------------------------------------------------------------------------- v1 engine
+
+def _classes(ty, out=None):
+    out = [] if out is None else out
+    if ty['k'] == 'cls':
+        out.append(ty)
+        for _, ft in ty['ftys']:
+            _classes(ft, out)
+    else:
+        for m in ty.get('a', []):
+            _classes(m, out)
+    return out
+
+
+def soften_kw_only(rng, ty, keep=0.06):
+    """v1 passes required fields positionally: a required kw_only field cannot be loaded at all (unchanged-code finding
+    `v1-kw-only-required`); keep only a few such classes so that the stream exercises the property itself"""
+    kept = False
+    for c in _classes(ty):
+        for f in c['info']['fields']:
+            if f.get('kw_only') and f.get('dflt') is None and f.get('init', True):
+                if rng.random() < keep:
+                    kept = True
+                else:
+                    del f['kw_only']
+    return kept
+
+
+def run_v1(ctx: C.Ctx):
+    from dataclass_wizard import fromdict
+    from dataclass_wizard.errors import MissingFields, JSONWizardError
+    rng = v1streams.sub_rng(ctx)
+    gen.SUBS = False
+    ctx.rule = ('the same class models bound to the v1 engine (root Meta v1=True, optionally v1_key_case=AUTO; more init=False fields, '
+                'with default and without (assigned in __post_init__)), the same subsets of deleted key positions: outcome vs the reference '
+                '(success with defaults / exact MissingFields naming the class and only constructor fields), default_factory freshness, '
+                'str(e), and vs the Lean model of the v1 engine (op loadv1). Non-trivial = distinct (class model, deleted subset), ≥ 1 deletion.')
+    ncls = ctx.quick(70, 700)
+    reqs, pend = [], []
+    idx = v1streams.OFFSET
+    for ci in range(ncls):
+        ty = gen_c09_cls(rng, rng.choice([0, 1, 1, 2]), fresh=v1streams.Namer(ci), p_noinit=0.6)
+        kw_req = soften_kw_only(rng, ty)
+        meta = {'v1': True}
+        if rng.random() < 0.25:
+            meta['v1_key_case'] = 'AUTO'
+        ty['info']['meta'] = meta
+        try:
+            built = model.Built(ty)
+        except Exception as e:
+            ctx.count('build_error')
+            ctx.notes.setdefault('build_errors', []).append(repr(e)[:300])
+            continue
+        try:
+            x = gen.gen_instance(rng, ty, built, use_defaults_prob=0.0)
+            doc = json.loads(json.dumps(plain_doc(x, ty, built)))
+            pos = key_positions(ty, doc)
+            limit = ctx.quick(6, 10)
+            if len(pos) <= limit:
+                subsets = [s for r in range(len(pos) + 1) for s in itertools.combinations(pos, r)]
+                ctx.count('v1:exhaustive_classes')
+            else:
+                subsets = [()] + [tuple(p for p in pos if rng.random() < rng.choice([0.15, 0.4])) for _ in range(ctx.quick(24, 200))]
+            for S in subsets:
+                i = idx
+                idx += 1
+                if ctx.done(i):
+                    break
+                if not ctx.begin_case(i):
+                    continue
+                d = delete_paths(doc, S)
+                case = {'ty': ty, 'doc': repr(d)[:500], 'deleted': repr(S), 'engine': 'v1'}
+                ctx.seen('absent:v1', case, nontrivial=bool(S))
+                src = dict(src=built.source)
+                before = copy.deepcopy(d)
+                out = load_outcome(lambda: fromdict(built.root, d))
+                kwkey = None
+                if kw_req and out[0] == 'err':
+                    # bare at the root, wrapped into a ParseError by the enclosing class's handler when nested
+                    be = out[1] if not isinstance(out[1], JSONWizardError) else getattr(out[1], 'base_error', None)
+                    if isinstance(be, TypeError) and '__init__()' in str(be):
+                        kwkey = 'v1-kw-only-required'
+                exp = expect(ty, d)
+                if exp is None:
+                    if out[0] == 'err':
+                        ctx.fail('absent:v1:unexpected-error', case, f'no required key deleted, but the v1 load raised {type(out[1]).__name__}: {str(out[1])[:300]}',
+                                 key=kwkey, detail=src)
+                    else:
+                        y2 = fromdict(built.root, copy.deepcopy(before))
+                        check_defaults(ctx, case, out[1], y2, ty, d, built, src)
+                else:
+                    cname, missing = exp
+                    if out[0] == 'ok':
+                        ctx.fail('absent:v1:no-error', case, f'required field(s) {missing} of {cname} deleted, but the v1 load returned {out[1]!r}'[:800], detail=src)
+                    elif not isinstance(out[1], MissingFields):
+                        ctx.fail('absent:v1:wrong-error', case, f'required field(s) {missing} of {cname} deleted: expected MissingFields, got '
+                                 f'{type(out[1]).__name__}: {str(out[1])[:200]}', key=kwkey, detail=src)
+                    else:
+                        e = out[1]
+                        got = sorted(e.missing_fields)
+                        if got != missing or e.class_name != cname:
+                            node = built.infos.get(cname)
+                            noinit = {f['name'] for f in node['info']['fields'] if not f.get('init', True)} if node else set()
+                            what = f'v1 MissingFields(class={e.class_name}, missing={got}), expected class={cname}, missing={missing}'
+                            if set(got) & noinit:
+                                what += f'; init=False field(s) {sorted(set(got) & noinit)} demanded from the document'
+                            ctx.fail('absent:v1:missing-list', case, what, detail=src)
+                        try:
+                            s_ = str(e)
+                            assert isinstance(s_, str)
+                        except Exception as ee:
+                            ctx.fail('absent:v1:message', case, f'str(MissingFields) raised {ee!r}', detail=src)
+                if kwkey is None and not kw_req:
+                    st = model.StdTables()
+                    st.add_json(d)
+                    reqs.append({'op': 'loadv1', 'ty': model.enc_ty(ty), 'doc': model.enc_j(d), 'std': st.build()})
+                    pend.append((case, out, built))
+        finally:
+            built.close()
+        if ctx.done(idx):
+            break
+    if ctx.model_available:
+        outs = ctx.driver.run(reqs)
+        for (case, out, built), o_ in zip(pend, outs):
+            compare_load(ctx, 'absent:v1', case, out, o_, built)
